@@ -14,6 +14,10 @@ NA = {
 }
 
 CHECKS = {
+ "C06": dict(engine="SEQ", category="exploration", design="§4 C06",
+   technique="deterministic simulation with stream fault injection: body presence signalled through net/http's wire parser over scripted body streams, the same wire request replayed on both binding entry points; reference admission model",
+   text="Whether a request carries a body is decided by reading the stream; the simulator builds each request from wire bytes (Content-Length n / 0 / chunked / neither, parsed by net/http) and puts a scripted stream under it (empty chunked body, zero-length reads before the first byte, first byte together with EOF, error before or after the first byte). The same wire request is given, on fresh streams, to Context.BindValidRequest and Context.BindAndValidate for tape-generated consumes lists (concrete, type/*, */*, parameterised, empty) × default media type × registered consumers × Content-Type spellings × methods; a reference model decides admission, 415/400, the consumer identity and agreement of the two entry points. The header-grammar half is seeded input sampling (said plainly); the body-presence half is stream fault injection.",
+   note="Accept kept permissive; admitted-but-unregistered types and operations with no consumes entry and no default are not judged; parameters ignored on both sides of the comparison."),
  "C02": dict(engine="SEQ", category="exploration", design="§4 C02",
    technique="deterministic simulation of evaluation order and collaborator outcomes: every consultation order of the schemes inside each alternative is enumerated per generated outcome vector by permuting RouteAuthenticator.Schemes; reference OR-of-ANDs model over the observed trace",
    text="The order in which the schemes of one alternative are consulted is a map-iteration order inside a dependency: fixed per process, random across processes, so unit tests see one order per run. Here each tape-generated (requirement structure, per-scheme outcome vector, authorizer behaviour, right-or-wrong rest of the request) is served once for every consultation order (all permutations, ≤36 combinations per run), through the full API handler and through the accessor sequence generated servers use; a reference model over the observed consultation trace decides admission, refusal status, principal/scopes/admitting alternative, and that neither the body stream nor a consumer nor the handler was touched on refusal. Seeded sampling of structures and vectors, enumeration of orders; not proof.",
